@@ -71,11 +71,20 @@ class DocActions(object):
       assert row_id in table.row_ids, \
           "docactions.[Bulk]UpdateRecord for non-existent record #%s" % row_id
 
-    # Load the updated values.
+    # Resolve all columns and collect the undo values before touching any cell.
     undo_values = {}
+    cols = []
     for col_id, values in columns.items():
       col = table.get_column(col_id)
       undo_values[col_id] = [col.raw_get(r) for r in row_ids]
+      cols.append((col, values))
+
+    # Generate the undo action first, so that a failure while loading the values gets rolled back.
+    self._engine.out_actions.undo.append(
+        actions.BulkUpdateRecord(table_id, row_ids, undo_values).simplify())
+
+    # Load the updated values.
+    for (col, values) in cols:
       for (row_id, value) in zip(row_ids, values):
         col.set(row_id, value)
 
@@ -84,10 +93,6 @@ class DocActions(object):
       # even if triggered by something else within the same useraction).
       if not col.is_formula():
         self._engine.prevent_recalc(col.node, row_ids, should_prevent=True)
-
-    # Generate the undo action.
-    self._engine.out_actions.undo.append(
-        actions.BulkUpdateRecord(table_id, row_ids, undo_values).simplify())
 
     # Invalidate the updated rows, just for the columns that got changed (and, as always,
     # anything that depends on them).
